@@ -39,7 +39,7 @@ def effect_of(p, args):
 
 
 # ---- BearerAuth ------------------------------------------------------------------------------------
-c = contract(f"{P}:BearerAuth.authenticate_request", props=["C17"], types={"request_args": "dict"}, nothrow=True,
+c = contract(f"{P}:BearerAuth.authenticate_request", props=["C17", "C04"], types={"request_args": "dict"}, nothrow=True,
              modifies=["request_args"], returns="param:request_args")
 
 @c.requires
@@ -52,7 +52,7 @@ def bearer_post(self, request_args, old, result):
 
 
 # ---- HeadersAuth -----------------------------------------------------------------------------------
-c = contract(f"{P}:HeadersAuth.authenticate_request", props=["C17"], types={"request_args": "dict"}, nothrow=True,
+c = contract(f"{P}:HeadersAuth.authenticate_request", props=["C17", "C04"], types={"request_args": "dict"}, nothrow=True,
              modifies=["request_args"], returns="param:request_args")
 
 @c.requires
@@ -66,7 +66,7 @@ def hdrs_post(self, request_args, old, result):
 
 
 # ---- ApiKeyAuth ------------------------------------------------------------------------------------
-c = contract(f"{P}:ApiKeyAuth.authenticate_request", props=["C17"], types={"request_args": "dict"},
+c = contract(f"{P}:ApiKeyAuth.authenticate_request", props=["C17", "C04"], types={"request_args": "dict"},
              raises_only=["ValueError"], modifies=["request_args"], returns="param:request_args")
 
 @c.requires
@@ -87,7 +87,7 @@ def apikey_invalid(self, request_args, old, exc):
 # ---- OAuth2Auth ------------------------------------------------------------------------------------
 # The refresh callback is a caller-supplied coroutine: modelled as an uninterpreted function of its argument
 # (assumption: it does not touch request_args or the plugin).
-c = contract(f"{P}:OAuth2Auth.authenticate_request", props=["C17"], types={"request_args": "dict"},
+c = contract(f"{P}:OAuth2Auth.authenticate_request", props=["C17", "C04"], types={"request_args": "dict"},
              functional_opaque=["self.refresh_callback"], modifies=["request_args", "self.access_token"],
              returns="param:request_args")
 
@@ -110,7 +110,7 @@ def oauth_post(self, request_args, old, result):
 
 
 # ---- BaseAuth (protocol): assumed contract for an arbitrary plugin ------------------------------------------
-c = contract(f"{B}:BaseAuth.authenticate_request", props=["C17"], abstract=True, on_opaque=True,
+c = contract(f"{B}:BaseAuth.authenticate_request", props=["C17", "C04"], abstract=True, on_opaque=True,
              assumed="protocol method: an arbitrary plugin is a function of (plugin, request_args); it may mutate "
                      "request_args and returns a dict", modifies=["request_args"], returns="dict")
 
@@ -127,7 +127,7 @@ def fold_effects(plugins: list, n: int, args: dict) -> dict:
     return effect_of(plugins[n - 1], fold_effects(plugins, n - 1, args))
 
 
-c = contract(f"{B}:CompositeAuth.authenticate_request", props=["C17"], types={"request_args": "dict"},
+c = contract(f"{B}:CompositeAuth.authenticate_request", props=["C17", "C04"], types={"request_args": "dict"},
              shape={"self.plugins": "list"}, modifies=["request_args"], returns="dict")
 
 @c.invariant(0)
@@ -140,7 +140,7 @@ def composite_post(self, request_args, old, result):
 
 
 # ---- CompositeAuth.__init__: the composition order IS the argument order -------------------------------
-c = contract(f"{B}:CompositeAuth.__init__", props=["C17"], types={"plugins": "list"}, abstract_unsupported=True)
+c = contract(f"{B}:CompositeAuth.__init__", props=["C17", "C04"], types={"plugins": "list"}, abstract_unsupported=True)
 
 @c.ensures(note="C17 'each plugin's contribution in composition order': the plugin sequence that authenticate_request folds over is the constructor's "
                 "argument sequence — same plugins, same order, nothing flattened, dropped or reordered (a nested composite stays one element, applied in place)")
